@@ -8,12 +8,12 @@ use crate::rng::Rng;
 use std::collections::BTreeMap;
 use std::fmt::Write;
 
-pub fn milli(x: f64) -> i64 {
-    (x * 1000.0).round() as i64
+pub fn milli(x: f64) -> i128 {
+    (x * 1000.0).round() as i128
 }
 
 /// exact decimal rendering of thousandths
-pub fn dec(m: i64) -> String {
+pub fn dec(m: i128) -> String {
     let sign = if m < 0 { "-" } else { "" };
     let a = m.abs();
     if a % 1000 == 0 {
@@ -150,8 +150,23 @@ pub struct EfgStyle {
     /// inside the documented 0.1 % tolerance
     pub slack_milli: i64,
     pub comment: bool,
+    /// interior outcomes are zero-sum increments only
+    pub zero_sum_only: bool,
     /// first chance infoset number (0 is legal and is an infoset like any other)
     pub chance_base: u64,
+}
+
+impl EfgStyle {
+    /// For games with payoffs of very different magnitudes (lotteries): the reader folds the
+    /// two players' payoffs into one zero-sum number in floating point, which is exact only
+    /// while every written pair is an exact negation; so constant 0, no tolerance slack, and
+    /// interior outcomes zero-sum.
+    pub fn exact_zero_sum(mut self) -> Self {
+        self.constant_milli = 0;
+        self.slack_milli = 0;
+        self.zero_sum_only = true;
+        self
+    }
 }
 
 impl EfgStyle {
@@ -167,6 +182,7 @@ impl EfgStyle {
             commas: r.coin(0.5),
             slack_milli: if r.coin(0.15) { 1 } else { 0 },
             comment: r.coin(0.3),
+            zero_sum_only: false,
             chance_base: *r.pick(&[0u64, 0, 1, 1, 7]),
         }
     }
@@ -182,6 +198,7 @@ impl EfgStyle {
             commas: true,
             slack_milli: 0,
             comment: false,
+            zero_sum_only: false,
             chance_base: 1,
         }
     }
@@ -209,15 +226,15 @@ struct EfgW<'a> {
     /// chance infoset numbers start here (Gambit's own files start at 1; 0 is legal too)
     chance_base: u64,
     next_outcome: u64,
-    shared: BTreeMap<(i64, i64), u64>,
+    shared: BTreeMap<(i128, i128), u64>,
     used_slack: i64,
     slack_ok: bool,
     /// outcomes whose payoffs are written somewhere and are a zero-sum increment (a, -a): an
     /// interior node may refer to one of them by number only
-    reusable: Vec<(u64, i64, i64)>,
+    reusable: Vec<(u64, i128, i128)>,
     /// outcomes referred to by number only so far; their payoffs are still to be written at a
     /// later node (definition after use)
-    pending: Vec<(u64, i64, i64)>,
+    pending: Vec<(u64, i128, i128)>,
 }
 
 fn is_2_5_smooth(mut n: u64) -> bool {
@@ -276,7 +293,7 @@ fn prob_strings(weights: &[f64], decimal: bool) -> Vec<String> {
 }
 
 impl EfgW<'_> {
-    fn payoffs(&self, a: i64, b: i64) -> String {
+    fn payoffs(&self, a: i128, b: i128) -> String {
         if self.st.commas {
             format!("{{ {}, {} }}", dec(a), dec(b))
         } else {
@@ -286,15 +303,15 @@ impl EfgW<'_> {
 
     /// `carry`: what interior outcomes above have already paid to player one and to player two
     /// (thousandths); interior outcomes need not be zero-sum, the leaves compensate
-    fn node(&mut self, n: &MNode, carry: (i64, i64)) {
+    fn node(&mut self, n: &MNode, carry: (i128, i128)) {
         match n {
             MNode::T(x) => {
-                let total_one = milli(*x) + self.st.constant_milli / 2;
+                let total_one = milli(*x) + (self.st.constant_milli / 2) as i128;
                 let one = total_one - carry.0;
-                let mut two = self.st.constant_milli - total_one - carry.1;
+                let mut two = self.st.constant_milli as i128 - total_one - carry.1;
                 let mut slack_here = false;
                 if self.slack_ok && self.st.slack_milli != 0 && self.r.coin(0.5) {
-                    two += self.st.slack_milli;
+                    two += self.st.slack_milli as i128;
                     self.used_slack = self.st.slack_milli;
                     slack_here = true;
                 }
@@ -394,7 +411,7 @@ impl EfgW<'_> {
 
     /// outcome clause of an interior node and what it pays to the two players (an "ante": not
     /// necessarily zero-sum; the file as a whole stays constant-sum)
-    fn interior(&mut self) -> (String, (i64, i64)) {
+    fn interior(&mut self) -> (String, (i128, i128)) {
         if self.r.coin(self.st.p_interior_payoff) {
             if self.st.share_outcomes {
                 // by number only: the payoffs are written at another node (before or after this one)
@@ -409,9 +426,9 @@ impl EfgW<'_> {
                     return (format!("{num} {}", self.payoffs(a, b)), (a, b));
                 }
             }
-            let a = (self.r.below(17) as i64 - 8) * 125;
+            let a = ((self.r.below(17) as i64 - 8) * 125) as i128;
             // a third of the interior outcomes are not zero-sum (one player pays an ante)
-            let b = if self.r.coin(0.33) { -a + *self.r.pick(&[-1000i64, -250, 125, 500, 1000]) } else { -a };
+            let b = if !self.st.zero_sum_only && self.r.coin(0.33) { -a + *self.r.pick(&[-1000i64, -250, 125, 500, 1000]) as i128 } else { -a };
             self.next_outcome += 1;
             let num = self.next_outcome;
             if self.st.share_outcomes && self.r.coin(0.25) {
@@ -428,9 +445,9 @@ impl EfgW<'_> {
 
 pub fn to_efg(model: &MNode, r: &mut Rng, st: &EfgStyle) -> EfgWritten {
     let stats = model.stats();
-    let range_milli = milli(stats.max_pay) - milli(stats.min_pay);
+    let range_milli = (milli(stats.max_pay) - milli(stats.min_pay)) as f64;
     // (max - min of the half sums) * 1000 <= range of player one's payoffs
-    let slack_ok = st.slack_milli != 0 && (st.slack_milli as f64 / 2.0) * 1000.0 <= range_milli as f64 * 0.5;
+    let slack_ok = st.slack_milli != 0 && (st.slack_milli as f64 / 2.0) * 1000.0 <= range_milli * 0.5;
     let mut w = EfgW {
         r,
         st,
